@@ -440,6 +440,27 @@ def reuse_case(draw):
     return {'routine': draw(st.sampled_from(REUSE)), 'sigA': sig(), 'sigB': sig()}
 
 
+def scribble(r):
+    """Overwrite, in place, every writable array reachable from a returned result."""
+    if hasattr(r, 'toarray') and hasattr(r, 'data'):
+        r = r.data
+    if isinstance(r, np.ndarray):
+        if r.flags.writeable and r.size and r.dtype.kind in 'fiub':
+            if r.dtype.kind == 'b':
+                r[...] = ~r
+            elif r.dtype.kind == 'f':
+                r *= 128.0
+                r += 1.0
+            else:
+                r += 3
+    elif isinstance(r, (tuple, list)):
+        for v in r:
+            scribble(v)
+    elif isinstance(r, dict):
+        for v in r.values():
+            scribble(v)
+
+
 def oracle_reuse(case, rec):
     """f(buffers holding A); overwrite the same buffer objects in place with B; f(buffers) must equal f(fresh copies of B):
     nothing keyed on the identity of an argument may survive a call."""
@@ -471,6 +492,13 @@ def oracle_reuse(case, rec):
                                 'the result of the first call changed when the caller overwrote its input arrays')
             second = f(*bufs)
             fresh = f(*[b.copy() for b in B])
+            keep = np.asarray(fresh.toarray()).copy() if hasattr(fresh, 'toarray') else copy.deepcopy(fresh)
+            scribble(fresh)               # the caller edits what it was given back, then asks again
+            third = f(*[b.copy() for b in B])
+            third = np.asarray(third.toarray()) if hasattr(third, 'toarray') else third
+            if not same(third, keep):
+                raise Violation('C19/%s/result-changes-after-the-caller-edited-an-earlier-result-in-place' % name, '')
+            fresh = keep
         except Violation:
             raise
         except emd.support.EMDSiftCovergeError:
@@ -478,7 +506,7 @@ def oracle_reuse(case, rec):
         except Exception as e:
             raise Discard('routine rejects this input: %s' % type(e).__name__)
     if hasattr(second, 'toarray'):
-        second, fresh = np.asarray(second.toarray()), np.asarray(fresh.toarray())
+        second = np.asarray(second.toarray())
     if not same(second, fresh):
         raise Violation('C19/%s/result-depends-on-an-earlier-call-through-the-same-array-objects' % name, '')
     rec.cls('routine=' + name)
